@@ -82,6 +82,44 @@ func buildThrottleComponent(w *World, fault bool) (*throttleModel, error) {
 			m.listenFld = i
 		}
 	}
+	if m.bucketFld < 0 {
+		// the bucket behind an interface of the package's own (the methods the throttler uses): the field the constructor
+		// fills with a *ratelimit.Bucket, and only ever with one
+		cand := map[int]bool{}
+		for _, fn := range w.funcsInPkg("throttle") {
+			for _, b := range fn.Blocks {
+				for _, in := range b.Instrs {
+					st, ok := in.(*ssa.Store)
+					if !ok {
+						continue
+					}
+					fa, ok := st.Addr.(*ssa.FieldAddr)
+					if !ok || !isPtrTo(fa.X.Type(), T) {
+						continue
+					}
+					if _, isIface := c.St.Field(fa.Field).Type().Underlying().(*types.Interface); !isIface || fa.Field == m.listenFld {
+						continue
+					}
+					if _, isSink := c.SinkField[fa.Field]; isSink {
+						continue
+					}
+					mi, ok := st.Val.(*ssa.MakeInterface)
+					if ok && typeIs(mi.X.Type(), "github.com/juju/ratelimit", "Bucket") {
+						if _, seen := cand[fa.Field]; !seen {
+							cand[fa.Field] = true
+						}
+					} else {
+						cand[fa.Field] = false
+					}
+				}
+			}
+		}
+		for fi, ok := range cand {
+			if ok && m.bucketFld < 0 {
+				m.bucketFld = fi
+			}
+		}
+	}
 	if m.bucketFld < 0 || m.listenFld < 0 {
 		return nil, fmt.Errorf("bucket / listener fields not resolved")
 	}
